@@ -78,3 +78,58 @@ Qed.
 Lemma populate_total_no_links v ms :
   wf_zip ms = true -> no_links ms = true -> exists t, populate v ms = Ok (t, no_caches).
 Proof. intros W NL. destruct (populate_no_links v ms W NL) as (t & P & H & _). now exists t. Qed.
+
+(* ---------- archives with links ---------- *)
+From PG Require Import Proofs.C16Target Proofs.C16OsRes Proofs.C16Links.
+
+Lemma canonb_plain s : canonb s = true -> Forall plain (qcomps s).
+Proof.
+  unfold canonb. destruct s as [|ch s]; [constructor|]. simpl orb. intros H. now apply forallb_plain.
+Qed.
+
+(* a well-formed archive with nice link targets never makes populate_cache raise,
+   and the memo tables it leaves behind are consistent with the index *)
+Lemma populate_ok ms :
+  wf_zip ms = true -> nice_links ms = true ->
+  exists t c, populate repaired ms = Ok (t, c) /\ labels_ok t /\ caches_ok t c.
+Proof.
+  intros W NL. destruct (phase1_ok repaired ms W) as (t1 & P & ps0 & H1 & G & C & PI).
+  destruct (phase2_spec ms W NL t1 P ps0 G C PI) as (tF & cF & psf & Hl & LF & Cc & _ & _).
+  exists tF, cF. unfold populate. rewrite H1. splits; auto.
+  apply labels_plain_ok. apply LF.
+Qed.
+
+Definition agrees (ms : list member) (t : tbl) (s : str) : Prop :=
+  let q := qcomps s in
+  let f := extract ms in
+  match vfs_plookup t s with
+  | LAbsent => forall r, ~ os_res f [] q r
+  | LFile _ k => exists r, os_res f [] q r /\ fs_get r f = Some (TFile (member_data ms k))
+  | LDir i => exists r, os_res f [] q r /\ (r = [] \/ fs_get r f = Some TDir) /\
+                (forall n, In n (dir_names t i) -> plain_comp n = true) /\
+                (forall n, plain_comp n = true -> (In n (dir_names t i) <-> exists r', os_res f r [n] r'))
+  end.
+
+Lemma vfs_equal ms t c :
+  wf_zip ms = true -> nice_links ms = true -> populate repaired ms = Ok (t, c) ->
+  forall s, canonb s = true -> agrees ms t s.
+Proof.
+  intros W NL Hp s Hs. destruct (phase1_ok repaired ms W) as (t1 & P & ps0 & H1 & G & C & PI).
+  destruct (phase2_spec ms W NL t1 P ps0 G C PI) as (tF & cF & psf & Hl & LF & Cc & H4 & H5).
+  unfold populate in Hp. rewrite H1, Hl in Hp. inversion Hp; subst t c. clear Hp.
+  pose proof (canonb_plain s Hs) as Hq.
+  unfold agrees, vfs_plookup. rewrite plookup_qcomps. set (q := qcomps s) in *.
+  pose proof (index_is_os ms W NL t1 P ps0 G C PI tF psf LF H4 H5 q) as EQ.
+  destruct (walk tF 0 q) as [i|] eqn:Hw.
+  - pose proof (walk_lt ms t1 P G tF LF q i Hw) as Hlt.
+    destruct (path_of P i Hlt) as [pi Hpi].
+    assert (Hos : os_res (extract ms) [] q pi) by (apply (EQ pi Hq); now exists i).
+    unfold classify.
+    assert (Hki : i < length (t_kinds tF)) by (rewrite (l_kinds _ _ _ _ LF), <- (g_len _ _ G); exact Hlt).
+    destruct (nth_error (t_kinds tF) i) as [[|k]|] eqn:Hk; [| |apply nth_error_None in Hk; lia].
+    + exists pi. split; [exact Hos|]. split.
+      * apply (dir_inode_tdir ms W t1 P C i); [rewrite <- (l_kinds _ _ _ _ LF); exact Hk|exact Hpi].
+      * apply (dir_children ms W NL t1 P ps0 G C PI tF psf LF H4 H5 i pi Hk Hpi).
+    + exists pi. split; [exact Hos|]. apply (file_data ms W t1 P C tF LF i k pi Hk Hpi).
+  - unfold classify. intros r Hr. apply (EQ r Hq) in Hr as (i & Hi & _). discriminate.
+Qed.
